@@ -36,18 +36,37 @@ LINT_RE = re.compile(
 
 
 def enc(v) -> str:
-    """Python nested lists/ints/bools/str/bytes -> wire text."""
-    if isinstance(v, bool):
-        return '1' if v else '0'
-    if isinstance(v, int):
-        return str(v)
-    if isinstance(v, str):
-        return '(' + ' '.join(str(ord(c)) for c in v) + ')'
-    if isinstance(v, (bytes, bytearray)):
-        return '(' + ' '.join(str(b) for b in v) + ')'
-    if v is None:
-        return '()'
-    return '(' + ' '.join(enc(x) for x in v) + ')'
+    """Python nested lists/ints/bools/str/bytes -> wire text (iterative: documents may be
+    nested thousands deep)."""
+    out = []
+    stack = [v]
+    CLOSE = object()
+    SPACE = object()
+    while stack:
+        x = stack.pop()
+        if x is CLOSE:
+            out.append(')')
+        elif x is SPACE:
+            out.append(' ')
+        elif isinstance(x, bool):
+            out.append('1' if x else '0')
+        elif isinstance(x, int):
+            out.append(str(x))
+        elif isinstance(x, str):
+            out.append('(' + ' '.join(map(str, map(ord, x))) + ')')
+        elif isinstance(x, (bytes, bytearray)):
+            out.append('(' + ' '.join(map(str, x)) + ')')
+        elif x is None:
+            out.append('()')
+        else:
+            out.append('(')
+            stack.append(CLOSE)
+            items = list(x)
+            for i in range(len(items) - 1, -1, -1):
+                stack.append(items[i])
+                if i > 0:
+                    stack.append(SPACE)
+    return ''.join(out)
 
 
 def dec(s: str):
@@ -399,6 +418,26 @@ def parse_assumptions(ctx: Ctx, log: str, props_v: str):
                 ctx.proof_broken = 'theorem %s depends on non-stdlib axiom %s' % (name, a)
 
 
+def coqchk(ctx: Ctx):
+    """thorough tier: independent re-check of Props.vo and everything it depends on."""
+    import glob
+    dirs = sorted({os.path.basename(os.path.dirname(p)) for p in glob.glob(os.path.join(COQ, 'C[0-9]*', '*.v'))})
+    cmd = ['coqchk', '-silent', '-o', '-Q', 'lib', 'Falcon.lib', '-Q', 'gen', 'Falcon.gen']
+    for d in dirs:
+        cmd += ['-Q', d, 'Falcon.' + d]
+    cmd.append('Falcon.%s.Props' % ctx.prop)
+    code, out = _run(cmd, cwd=COQ, timeout=3000)
+    summary = out[out.find('CONTEXT SUMMARY'):] if 'CONTEXT SUMMARY' in out else out[-1500:]
+    ctx.cov['coqchk'] = {'cmd': ' '.join(cmd), 'exit': code, 'summary': summary.strip()[:3000]}
+    if code != 0:
+        ctx.proof_broken = (ctx.proof_broken or '') + '\ncoqchk failed: ' + out[-1500:]
+    else:
+        bad = [k for k in ('type-in-type', 'unsafe (co)fixpoints', 'positivity is assumed')
+               if not re.search(re.escape(k) + r':\s*<none>', summary)]
+        if bad:
+            ctx.proof_broken = (ctx.proof_broken or '') + '\ncoqchk reports: ' + ', '.join(bad)
+
+
 # --------------------------------------------------------------------------- model driver
 
 
@@ -424,7 +463,10 @@ class Model:
                 lines.pop()
             if len(lines) != len(part):
                 raise RuntimeError('model driver returned %d lines for %d cases' % (len(lines), len(part)))
-            outs.extend(dec(l) for l in lines)
+            try:   # C-speed reader: the wire text becomes JSON
+                outs.extend(json.loads('[' + ','.join(lines).replace('(', '[').replace(')', ']').replace(' ', ',') + ']'))
+            except (ValueError, RecursionError):
+                outs.extend(dec(l) for l in lines)
         return outs
 
     def run(self, v):
